@@ -625,8 +625,18 @@ func (w *worker) runDataset(idx int) {
 		}
 		hits, err := parseHits(r, q.dist)
 		if err != nil {
-			ctx.Inconclusive(fmt.Sprintf("%v for %q", err, args))
-			return
+			// the reply is syntactically valid RESP (the client parsed it) but an element does not have
+			// the form the options ask for (an id without its distance under DISTANCE, a pair without
+			// DISTANCE): that is the server's answer, not a failure of the machinery
+			reported++
+			if reported <= 2 {
+				ctx.Violation("nearby:reply-shape", fmt.Sprintf("dataset %d (%s, %d spatial objects) query %q: %v (DISTANCE requested: %v)", idx, reg.Name, len(sp), args, err, q.dist),
+					map[string]any{"commands": append(append([][]string{}, d.log...), args), "query": args, "reply": r.String()})
+			}
+			if ctx.Violations() > 20 {
+				return
+			}
+			continue
 		}
 		for i := range hits {
 			hits[i].oracle = odist[hits[i].id]
